@@ -6,7 +6,7 @@ PROP = {'tables': ['C17'], 'n_quick': 240,
  'rule': 'addresses: (quick) every witness version 0..16 with program lengths 0..3, 19..21, 31..33, 39..42 and a random quarter of the other lengths, network '
          "and blinding drawn at random, plus n random well-formed addresses of every kind incl. the crate's constructors; (thorough) the full lattice 3 "
          'networks x blinded x {p2pkh, p2sh, version 0..16 x length 0..42, versions 17/24/31}; near-miss strings: upper/mixed case, one character '
-         'replaced/dropped/appended, every mixed case pattern of the human-readable part (2^len patterns x lower/upper data part) of every generated segwit address, wrong checksum variant, other checksum family, versions 17..31, bad/missing blinding key, bad padding, foreign HRP, '
+         'replaced/dropped/appended, every mixed case pattern of the human-readable part (2^len patterns x lower/upper data part) of every generated segwit address, wrong checksum variant, other checksum family, versions 17..31, bad/missing blinding key, bad padding (every non-zero pattern of 1..4 padding bits with a recomputed checksum, blinded and unblinded, program lengths of every residue mod 5), foreign HRP, '
          'over-long, base58 with wrong length/prefix/inner prefix/blinder/checksum, > 150 characters; distinct = distinct case line; non-trivial = non-empty '
          'string',
  'trusted': ['the bech32/bech32m constants and limits are transcribed by hand from the upstream bech32-0.11.1 crate; blech32 constants, witness-length limits, '
